@@ -151,6 +151,73 @@ theorem args_infix_of_request (rx : Rx) (hs : RxSound rx) (req : Option Bytes) (
   rw [dispatch_eq_spec rx hs] at hev
   exact args_infix_route rx req _ o url ev hev x hx
 
+/-! ## typed handlers of `url_dispatcher::map()` -/
+
+/-- `parameter >> value` followed by the `eof()` test (libstdc++'s digit loop with its incremental overflow test,
+after the sentry skipped white space and one sign was read) accepts **exactly** the decimal numerals in the range of
+the type and yields their value — for every byte string, for `int`, `unsigned`, `long long`, `unsigned long long`. -/
+theorem typed_integer_is_numeral (s : Bytes) :
+    parseNum ⟨true, 32⟩ s = Spec.numeral true 32 s ∧ parseNum ⟨false, 32⟩ s = Spec.numeral false 32 s ∧
+    parseNum ⟨true, 64⟩ s = Spec.numeral true 64 s ∧ parseNum ⟨false, 64⟩ s = Spec.numeral false 64 s :=
+  ⟨parseNum_eq_numeral _ (by decide) s, parseNum_eq_numeral _ (by decide) s,
+   parseNum_eq_numeral _ (by decide) s, parseNum_eq_numeral _ (by decide) s⟩
+
+/-- one parameter: valid text (external `rx.valid`) and, for integer types, a numeral in range -/
+theorem typed_param_eq_spec (rx : Rx) (t : PType) (s : Bytes) : convertParam rx t s = Spec.convert rx t s :=
+  convertParam_eq rx t s
+
+/-- **A typed handler takes the request iff its pattern matches the whole URL, its method filter holds AND every
+selected group converts to its parameter type**; then the member is called with exactly the converted values.
+Otherwise `option::dispatch` returns `false` without having called anything and the scan goes on to the next option
+(with `dispatch_is_first_match` / `dispatch_eq_spec`: the first option that matches *and whose parameters convert*). -/
+theorem typed_handler_applies_iff (rx : Rx) (hs : RxSound rx) (req : Option Bytes) (l : Leaf) (ps : List (Int × PType))
+    (hk : l.kind = .typed ps) (url : Bytes) :
+    leafAttempt rx Gen.quirks req l url =
+      match req, Spec.whole rx l.re url with
+      | some _, some raw =>
+        if Spec.methodOk rx l.meth req then
+          match ps.mapM fun gt => (Spec.convert rx gt.2 (Spec.groupStr url raw gt.1)).map some with
+          | some vals => .fire [.ran l.id vals]
+          | none => .skip
+        else .skip
+      | _, _ => .skip := by
+  rw [leafAttempt_eq rx gen_fixed gen_method hs]
+  unfold Spec.leafTry
+  rw [hk]
+  cases req with
+  | none => simp [tryToAttempt]
+  | some r =>
+    cases hw : Spec.whole rx l.re url with
+    | none => by_cases hm : Spec.methodOk rx l.meth (some r) = true <;> simp [hm, tryToAttempt]
+    | some raw =>
+      by_cases hm : Spec.methodOk rx l.meth (some r) = true
+      · simp only [Option.isSome_some, Bool.true_and, hm, if_true, Option.bind_some]
+        cases (ps.mapM fun gt => (Spec.convert rx gt.2 (Spec.groupStr url raw gt.1)).map some) <;> simp [tryToAttempt]
+      · simp [hm, tryToAttempt]
+
+/-- numerals: range ends of `int`, white space, signs, `unsigned` negation, junk -/
+example :
+    Spec.numeral true 32 [50, 49, 52, 55, 52, 56, 51, 54, 52, 55] = some 2147483647 ∧          -- "2147483647"
+    Spec.numeral true 32 [50, 49, 52, 55, 52, 56, 51, 54, 52, 56] = none ∧                     -- "2147483648"
+    Spec.numeral true 32 [45, 50, 49, 52, 55, 52, 56, 51, 54, 52, 56] = some (-2147483648) ∧   -- "-2147483648"
+    Spec.numeral true 32 [32, 9, 48, 48, 55] = some 7 ∧                                       -- " \t007"
+    Spec.numeral true 32 [55, 32] = none ∧ Spec.numeral true 32 [] = none ∧ Spec.numeral true 32 [43] = none ∧
+    Spec.numeral true 32 [45, 43, 49] = none ∧ Spec.numeral true 32 [49, 97] = none ∧
+    Spec.numeral false 32 [45, 49] = some 4294967295 ∧ Spec.numeral false 32 [45, 48] = some 0 ∧
+    parseNum ⟨true, 32⟩ [50, 49, 52, 55, 52, 56, 51, 54, 52, 56] = none ∧ parseNum ⟨false, 32⟩ [45, 49] = some 4294967295 := by
+  decide
+
+/-- two handlers on one pattern: `/p/2147483648` does not fit `int`, so the `unsigned` one (registered later) gets it;
+`/p/12` goes to the first -/
+example :
+    let rx : Rx := { info := fun _ _ => some 1,
+                     exec := fun _ _ s => if s.take 3 = [47, 112, 47] then some ((0, s.length), [(3, s.length)]) else none }
+    let o : Opts := .leaf ⟨1, ⟨[120], {}⟩, none, .typed [(1, .i32)]⟩ (.leaf ⟨2, ⟨[120], {}⟩, none, .typed [(1, .u32)]⟩ .nil)
+    dispatch rx Gen.quirks (some [71]) o [47, 112, 47, 50, 49, 52, 55, 52, 56, 51, 54, 52, 56] =
+      (true, [.ran 2 [some [50, 49, 52, 55, 52, 56, 51, 54, 52, 56]]]) ∧
+    dispatch rx Gen.quirks (some [71]) o [47, 112, 47, 49, 50] = (true, [.ran 1 [some [49, 50]]]) ∧
+    dispatch rx Gen.quirks none o [47, 112, 47, 49, 50] = (false, []) := by decide
+
 /-! ## mount points and the pool -/
 
 /-- `mount_point::match` = all configured patterns match their whole strings; the result is the
